@@ -770,10 +770,41 @@ pub fn replay_c20(case: &J, rep: &mut Report) -> Result<(), String> {
 /// (`--toggle-collect=*cost_probe_measured*`). Drains the non-overlapping
 /// iterator over the given span and returns the number of matches.
 #[inline(never)]
-pub fn cost_probe_measured(s: &S, hay: &[u8], span: (usize, usize)) -> usize {
-    match s.try_find_iter(Input::new(hay).span(span.0..span.1)) {
-        Ok(v) => v.len(),
-        Err(_) => usize::MAX,
+pub fn cost_probe_measured(s: &S, hay: &[u8], span: (usize, usize), op: &str) -> usize {
+    match op {
+        "overlap" => {
+            // stepwise overlapping search to exhaustion
+            let mut st = OverlappingState::start();
+            let mut n = 0usize;
+            loop {
+                if s.try_find_overlapping(Input::new(hay).span(span.0..span.1), &mut st).is_err() {
+                    return usize::MAX;
+                }
+                if st.get_match().is_none() {
+                    return n;
+                }
+                n += 1;
+                if n > 10 * hay.len() + 10 {
+                    return n;
+                }
+            }
+        }
+        "stream" => {
+            let sched = [4096usize];
+            let body = &hay[span.0..span.1];
+            let mut rdr = SchedReader::new(body, &sched);
+            let r = match s {
+                S::Top(a) => a.try_stream_find_iter(&mut rdr).map(|it| it.count()),
+                S::N(a) => a.try_stream_find_iter(&mut rdr).map(|it| it.count()),
+                S::C(a) => a.try_stream_find_iter(&mut rdr).map(|it| it.count()),
+                S::D(a) => a.try_stream_find_iter(&mut rdr).map(|it| it.count()),
+            };
+            r.unwrap_or(usize::MAX)
+        }
+        _ => match s.try_find_iter(Input::new(hay).span(span.0..span.1)) {
+            Ok(v) => v.len(),
+            Err(_) => usize::MAX,
+        },
     }
 }
 
@@ -787,12 +818,20 @@ pub const COST_FAMILIES: [&str; 14] = [
 /// half, then a false candidate every few bytes so that the search keeps
 /// returning to the start state and consulting the prefilter.
 pub fn cost_case(family: &str, n: usize, seed: u64) -> Result<(Cfg, Vec<Vec<u8>>, S, Vec<u8>), String> {
+    // "overlap-<family>" / "stream-<family>": same shapes, standard semantics
+    let (op_kind, family) = if let Some(f) = family.strip_prefix("overlap-") {
+        (Some(Kind::Standard), f)
+    } else if let Some(f) = family.strip_prefix("stream-") {
+        (Some(Kind::Standard), f)
+    } else {
+        (None, family)
+    };
     let mut rng = Rng::new(seed).fork(0xC057);
     let variants = ["Memmem", "StartBytesOne", "StartBytesTwo", "StartBytesThree", "RareBytesOne", "RareBytesTwo", "RareBytesThree", "Packed"];
     let (want, kind) = match family {
         "standard-RareBytesTwo" => ("RareBytesTwo", Kind::Standard),
-        f if variants.contains(&f) => (f, Kind::LeftmostFirst),
-        _ => ("", Kind::LeftmostFirst),
+        f if variants.contains(&f) => (f, op_kind.unwrap_or(Kind::LeftmostFirst)),
+        _ => ("", op_kind.unwrap_or(Kind::LeftmostFirst)),
     };
     if !want.is_empty() {
         // find a pattern list that selects the wanted prefilter
@@ -892,7 +931,7 @@ pub fn cost_case(family: &str, n: usize, seed: u64) -> Result<(Cfg, Vec<Vec<u8>>
         }
         _ => return Err(format!("unknown cost family {}", family)),
     };
-    let cfg = Cfg::new(Imp::TopCnfa, Kind::LeftmostFirst).ci(ci).pre(false);
+    let cfg = Cfg::new(Imp::TopCnfa, kind).ci(ci).pre(false);
     let s = cfg.build(&pats)?;
     Ok((cfg, pats, s, hay))
 }
@@ -916,7 +955,19 @@ pub fn cost_main(family: &str, n: usize, mode: &str, seed: u64) -> Result<String
         }
         _ => return Err("mode must be full, span or sub".into()),
     };
-    let matches = cost_probe_measured(&s, &hay, span);
+    let op = if family.starts_with("overlap-") {
+        "overlap"
+    } else if family.starts_with("stream-") {
+        "stream"
+    } else {
+        "iter"
+    };
+    if op == "stream" {
+        // a small buffer so that the stream buffer rolls thousands of times
+        verif::set_stream_buffer_spare(Some(61));
+    }
+    let matches = cost_probe_measured(&s, &hay, span, op);
+    verif::set_stream_buffer_spare(None);
     Ok(format!(
         "{{\"family\":\"{}\",\"n\":{},\"mode\":\"{}\",\"cfg\":\"{}\",\"patterns\":{},\"matches\":{}}}",
         family, n, mode, cfg.label(), pats.len(), matches
